@@ -36,5 +36,8 @@ MultipleOf(f, g, dF, dG) ==
      ELSE LET k == Arr(n, LAMBDA i : Crt23(q2.q[i], q3.q[i]))
               bnd == BoundOK(n, MaxAbs(k), MaxAbs(f) + MaxAbs(g), 1, MaxAbs(dF) + MaxAbs(dG))
               okp(p, gen) == MulModP(k, f, p, gen) = ReduceSeq(dF, p) /\ MulModP(k, g, p, gen) = ReduceSeq(dG, p)
-          IN [decided |-> TRUE, holds |-> bnd /\ \A i \in 1..3 : okp(Primes[i][1], Primes[i][2]), kmax |-> MaxAbs(k)]
+          \* when the magnitudes do not let the reconstruction speak for the integers, the multiple is not decided here
+          \* (DetInvariant, exact over Z, still is); callers must not use this for inputs whose true quotient may exceed P2*P3/2
+          IN IF bnd THEN [decided |-> TRUE, holds |-> \A i \in 1..3 : okp(Primes[i][1], Primes[i][2]), kmax |-> MaxAbs(k)]
+                    ELSE [decided |-> FALSE, holds |-> TRUE, kmax |-> MaxAbs(k)]
 =====================================================================
